@@ -719,8 +719,8 @@ void Walker::step(const Op& o, size_t index) {
 		if (S.replica) break;
 		std::vector<M::Transition> v; const int n = 1 + o.a2 % 48;
 		for (int k = 0; k < n; ++k) { const uint32_t h = mix(o.a0 * 256u + o.a1, (uint32_t) k + 5u); int t = (int) (h % 7), d = (int) ((h >> 4) % HV_NS); saneRequest(t, d); v.push_back(M::Transition{(StateID) d, (TransitionType) t}); }
-		for (auto& t : v) if (t.type != TransitionType::SCHEDULE && t.destination > 0 && node(t.destination).kind != LEAF) { bool onlyOrtho = true; for (int c = node(t.destination).parent; c >= 0; c = node(c).parent) if (node(c).kind != ORTHO) onlyOrtho = false; if (onlyOrtho) in.degenerateReplay = true; }
 		{ bool anyTransition = false; for (auto& t : v) if (t.type != TransitionType::SCHEDULE) anyTransition = true; if (!anyTransition) v[0] = M::Transition{(StateID) (1 % HV_NS), TransitionType::CHANGE}; } // a recorded history always holds a transition
+		for (auto& t : v) if (t.type != TransitionType::SCHEDULE && t.destination > 0 && node(t.destination).kind != LEAF) { bool onlyOrtho = true; for (int c = node(t.destination).parent; c >= 0; c = node(c).parent) if (node(c).kind != ORTHO) onlyOrtho = false; if (onlyOrtho) in.degenerateReplay = true; }
 		in.overlongReplay = n > HV_COMPO_COUNT * HV_SUBST_LIMIT;
 		bool ok = false; LIB(ok = f.replayTransitions(&v[0], (hfsm2::Short) n)); (void) ok;
 		afterCall(in, what, true); in.overlongReplay = false; in.degenerateReplay = false;
